@@ -6,8 +6,8 @@ CHECKS = {
     "C20": {
         "technique": "FIFO step harness + interference harnesses with symbolic preemption at synchronisation points",
         "bounds": {
-            "quick": {"queue length": "0..3", "operations": "K=4 push/pull", "preemptions": 3, "consumer pulls / producer pushes": "0..2"},
-            "thorough": {"queue length": "0..3", "operations": "K=7", "preemptions": 5, "consumer pulls / producer pushes": "0..2"},
+            "quick": {"queue length": "0..3", "operations": "K=5 push/pull", "preemptions": 5, "consumer pulls / producer pushes": "0..2"},
+            "thorough": {"queue length": "0..3", "operations": "K=7", "preemptions": 7, "consumer pulls / producer pushes": "0..2"},
         },
         "assumptions": [
             "preemption only at synchronisation points (lock, unlock, channel operation, select, close) — sound for data-race-free code",
@@ -16,13 +16,13 @@ CHECKS = {
         ],
         "outside": ["end-to-end server-speed runs", "more than the stated number of preemptions"],
         "runs": [
-            {"name": "step.queue", "files": [G + "c20_queue.go"], "fn": "VerifH_C20_step", "params_quick": {"K": 4}, "params_thorough": {"K": 7}, "reach": ["end"]},
+            {"name": "step.queue", "files": [G + "c20_queue.go"], "fn": "VerifH_C20_step", "params_quick": {"K": 5}, "params_thorough": {"K": 7}, "reach": ["end"]},
             {"name": "conc.queue.producer", "files": [G + "c20_queue.go", G + "c20_queue_native.go"], "fn": "VerifH_C20_producer",
-             "preempt_quick": 3, "preempt_thorough": 5, "reach": ["producer-returned", "producer-still-blocked"]},
+             "preempt_quick": 5, "preempt_thorough": 7, "reach": ["producer-returned", "producer-still-blocked"]},
             {"name": "conc.queue.consumer", "files": [G + "c20_queue.go", G + "c20_queue_native.go"], "fn": "VerifH_C20_consumer",
-             "preempt_quick": 3, "preempt_thorough": 5, "reach": ["consumer-returned", "consumer-still-blocked"]},
+             "preempt_quick": 5, "preempt_thorough": 7, "reach": ["consumer-returned", "consumer-still-blocked"]},
             {"name": "conc.queue.cancel", "files": [G + "c20_queue.go", G + "c20_queue_native.go"], "fn": "VerifH_C20_cancel",
-             "preempt_quick": 3, "preempt_thorough": 5, "reach": ["end"]},
+             "preempt_quick": 5, "preempt_thorough": 7, "reach": ["end"]},
         ],
     },
 }
